@@ -36,6 +36,8 @@ def evStr : Ev → String
   | Ev.flagSet f t => s!"flag-set f{f} t{t}"
   | Ev.unlockB t => s!"s {t} unlock mxB"
   | Ev.cvBlockB t => s!"s {t} cv-block cvB"
+  | Ev.park n t => s!"park a{n} t{t}"
+  | Ev.awReg t n => s!"s {t} aw-reg a{n}"
   | Ev.curStopped t r => s!"cur-stopped t{t} {b01 r}"
   | Ev.curEnq t r => s!"cur-enq t{t} {b01 r}"
   | Ev.curInline t => s!"cur-inline t{t}"
@@ -66,6 +68,7 @@ def parsePrimList : List Char → List Prim
   | 'q' :: r => Prim.curStopped :: parsePrimList r
   | 'a' :: r => Prim.curEnq :: parsePrimList r
   | 'c' :: r => Prim.resub :: parsePrimList r
+  | 'v' :: d :: r => Prim.wait (10 + (d.toNat - '0'.toNat)) :: Prim.resolveNow (d.toNat - '0'.toNat) :: parsePrimList r
   | 'B' :: r => Prim.destroyB :: parsePrimList r
   | _ :: r => parsePrimList r
 
@@ -75,6 +78,18 @@ def parsePrims (w : String) : List Prim × Bool :=
 /-- `fn` may be spelled with suffix letters: `V` void-returning function, `L` large closure, `T` the function throws -/
 def throwsOf (k : String) : List Prim :=
   if k.startsWith "fn" && (k.drop 2).toString.toList.contains 'T' then [Prim.throw_] else []
+
+def digitOf (w : String) (i : Nat) : Nat := ((w.toList[i]?).map (fun ch => ch.toNat - '0'.toNat)).getD 0
+
+/-- an op may stand for several actions: `res<n>` = wait until slot n is registered, then resolve it -/
+def parseOps (w : String) : List Act :=
+  if w.startsWith "res" && w.length == 4 then [Act.wait (10 + digitOf w 3), Act.resolveNow (digitOf w 3)]
+  else if w.startsWith "ax" then
+    match w.splitOn ":" with
+    | [k] => [Act.park (digitOf k 2) []]
+    | [k, p] => [Act.park (digitOf k 2) (parsePrims p).1]
+    | _ => []
+  else []
 
 def parseOp (w : String) : Option Act :=
   if w == "stop" then some Act.stop
@@ -117,13 +132,15 @@ def runCase (hdr : List String) (body : List (List String)) : List String := Id.
   let nw := max 1 ((hdr[3]? >>= String.toNat?).getD 1)
   let cls := body.filter (fun w => w.head? == some "c")
   let sched := (body.filter (fun w => w.head? == some "sched")).flatMap (fun w => (w.drop 1).filterMap String.toNat?)
-  let scripts := (cls.map (fun w => (w.drop 1).filterMap parseOp)).toArray
+  let scripts := (cls.map (fun w => (w.drop 1).flatMap (fun o => match parseOps o with
+      | [] => (parseOp o).toList
+      | l => l))).toArray
   let hasB := hdr.contains "B"
   let nc0 := nw + (if hasB then 1 else 0)
   let nt := nc0 + cls.length
   let cfg : Cfg := { nw := nw, nt := nt, script := fun t => scripts[t - nc0]?.getD [], hasB := hasB,
                      raOwns := !hdr.contains "asis-ra", dtorOutside := !hdr.contains "asis-dtor",
-                     cvYield := hdr.contains "cvy", curNullOk := !hdr.contains "asis-cur" }
+                     cvYield := hdr.contains "cvy", awHandleFirst := !hdr.contains "asis-aw", curNullOk := !hdr.contains "asis-cur" }
   let (s, out, stuck) := runSched cfg (init cfg) sched #[] 100000
   let mut lines := out
   if stuck then
